@@ -153,7 +153,7 @@ impl Variant {
     pub fn newtype_field(&self) -> Option<Field> {
         match &self.body {
             VBody::Newtype(t) => Some(Field {
-                rust: format!("nt_{}", self.rust.trim_start_matches("r#")),
+                rust: format!("nt_{}", self.rust.trim_start_matches("r#").to_lowercase()),
                 ty: t.clone(),
                 multiple: false,
                 rename: None,
@@ -408,7 +408,7 @@ pub struct Profile {
     pub flatten_weight: u32,
 }
 
-pub const HOSTILE_FIELDS: [&str; 24] = ["errors", "items", "item", "name", "inner", "other", "val", "len", "skip", "rename", "map", "with", "flatten", "multiple", "and_then", "word", "r#type", "r#fn", "r#match", "r#struct", "result", "value", "field", "meta"];
+pub const HOSTILE_FIELDS: [&str; 27] = ["errors", "items", "item", "name", "inner", "other", "val", "len", "skip", "rename", "map", "with", "flatten", "multiple", "and_then", "word", "r#type", "r#fn", "r#match", "r#struct", "result", "value", "field", "meta", "_lead", "_marker", "__dunder"];
 pub const HOSTILE_VARIANTS: [&str; 10] = ["None", "Some", "Ok", "Err", "Default", "String", "Vec", "Result", "Option", "Box"];
 
 pub struct Gen<'a> {
